@@ -65,6 +65,9 @@ int main(void) {
           fw_verify_sfnv = fnv(img + fw_verify_len, RSA_NUM_BYTES);
         } else { fw_verify_len = ~0ull; }
         sdk_out("SIGNED %llu %08x", (unsigned long long)img_len, fnv(img, img_len));
+      } else if (!strcmp(op, "imgtrunc") && ops_ntok == 2) { /* drop n bytes from the end of the image buffer */
+        size_t n = strtoul(ops_tok[1], 0, 10);
+        img_len = n <= img_len ? img_len - n : 0;
       } else if (!strcmp(op, "flip") && ops_ntok == 3) {
         size_t o = strtoul(ops_tok[1], 0, 10);
         if (o < img_len) img[o] ^= (unsigned char)strtoul(ops_tok[2], 0, 16);
